@@ -16,7 +16,8 @@
        abstraction), C16_newVectorisedView shows Views() returns the views passed in.
    * "any sequence of operations ... clone": C16_history_refines (fold_left over every history
        of TrimFront / CapLength / RemoveFirst / Clone on an original and any number of clones:
-       the objects behave like a family of independent byte strings, sizes in step).
+       the objects behave like a family of independent byte strings, sizes in step);
+       C16_history_from_new: NewVectorisedView(sum of lengths, views) is a legal starting point.
    * "a clone is unaffected by later trimming or capping of the original": C16_clone_independent
        (any buffer that does not alias the original's header array), C16_untouched_by_others
        (no history on OTHER objects changes an object), and C16_clone_aliased_buffer_refuted
@@ -105,6 +106,13 @@ Theorem C16_history_refines : forall ops w,
              map vv_size (wobjs w') = map (fun b => Z.of_nat (length b)) (wabs w').
 Proof. exact world_refines. Qed.
 Print Assumptions C16_history_refines.
+
+Theorem C16_history_from_new : forall h vs,
+  Forall wf_view vs ->
+  exists h' vv, newVectorisedView h (sumlen vs) vs = (h', vv) /\
+    wf_world (mkW h' [vv]) /\ wabs (mkW h' [vv]) = [concat (map vbytes vs)].
+Proof. exact world_init_wf. Qed.
+Print Assumptions C16_history_from_new.
 
 Theorem C16_clone_independent : forall h vv buf h' c,
   vv_wf h vv -> hs_ok h buf -> harr buf <> harr (views vv) -> vv_clone h vv buf = (h', c) ->
